@@ -246,6 +246,14 @@ pub fn exec(op: &str, a: &[Vec<u8>]) -> Out {
                 dsv.push(need!(sc_any(s)));
             }
             let pre = Pre::new(&spv);
+            // the same precomputation built from an iterator WITHOUT an exact size hint: len() / is_empty() must
+            // not depend on how the collection grew (seeded change C05g: len() returning the Vec's capacity)
+            {
+                let pre2 = Pre::new(spv.iter().filter(|_| true));
+                if pre2.len() != pre.len() || pre2.is_empty() != pre.is_empty() || pre.len() != spv.len() {
+                    return Out::Ok(format!("precomputation len(): {} from a slice, {} from a filtered iterator, {} points", pre.len(), pre2.len(), spv.len()).into_bytes());
+                }
+            }
             // a precomputation is a reusable object: a first use with other scalars (all ones, fewer of them)
             // must not influence the measured call
             {
